@@ -2,4 +2,13 @@ SPEC_PART = dict(
     props_file="C14_theta",
     legs=[dict(family="theta", focus="malformed", oracles=["no_panic"], profiles=["debug", "release"],
                mask=[7, 12, 13], n_quick=150, n_thorough=2000, panic_is_violation=True)],
-    trusted=[], assumptions=[], covers="theta: TBD")
+    trusted=["the set of modelled panic sites is what I read in theta/sketch.rs and theta/bit_pack.rs (asserts, unreachable!, "
+             "indexing, shifts, subtraction/addition overflow)"],
+    assumptions=["inputs are byte strings (every element below 256)"],
+    covers="theta: c_deserialize never reaches a modelled panic site for any byte string; Ok => entries in (0, theta), theta in "
+           "[1, 2^63-1], ascending when ordered, and at most 8*|input| entries; every such value re-serializes both ways without a "
+           "panic. Six defects found and repaired in /repo (D14 entry_bits/count bytes, allocation before length check incl. an "
+           "abort, delta-sum overflow, D12 ordered flag, theta = 0 bounds panic) - known_findings.d/theta-*.json. Tie: mutated "
+           "images of all variants (field-aware: counts, theta, flags, entry_bits, count bytes, truncation, extension, adjacent "
+           "swaps under ORDERED at odd and even indices) and random bytes: no panic, no allocation above 64*len+1MiB, outcome "
+           "and value equal to the model's, every Ok value queried (estimate, bounds) and re-serialized both ways")
